@@ -1184,6 +1184,27 @@ def run(ctx):
     ctx.explanation = ("translation validation of generated DSL chains: per-iteration relation extracted from the witness MIR vs the relation "
                        "composed from per-method std semantics; direction rule for positional adapters before a reversal")
     ctx.level = "translation_validation"
+    chains, dir_seen, samples = tv(ctx)
+    for (a, r), example in sorted(dir_seen.items()):
+        why = {"take": "keeps the last n elements instead of the first n (eval!(&[1,2,3,4], take(2), rev(), next()) = Some(4), std Some(2))",
+               "skip": "skips the last n elements instead of the first n (eval!(&[1,2,3,4], skip(1), rev(), next()) = Some(3), std Some(4))",
+               "zip": "pairs both sides from their back ends, std first trims the longer side (eval!(&[1,2,3], zip(&[10,20]), rev(), next()) = "
+                      "Some((3,20)), std Some((2,20)))"}[a]
+        ctx.violation("DIR", "%s|%s" % (a, r), "`%s` before `%s` is accepted, but the reversal is hoisted to the source, so `%s` %s; seen in chain `%s`" % (
+            a, r, a, why, example))
+        ctx.instance("DIR", "%s|%s" % (a, r), sample={"adapter": a, "reverser": r, "example": example})
+    ctx.extra["programs"] = len(chains)
+    ctx.extra["disagreements_checked"] = len(chains)
+    ctx.extra["samples"] = samples or [{"chain": "-"}]
+    nest2(ctx)
+    closure_scope(ctx)
+    from .. import macrolint
+    macrolint.hygiene_rule(ctx, ["iter_eval", "for_each", "iter_collect_const"], facts.REPO)
+    ctx.floor("TV", 400)
+
+
+def tv(ctx):
+    """the chain validation itself (rule TV): -> (chains, {(positional adapter, reverser): example chain}, samples)"""
     chains = enumerate_chains(ctx)
     CH = 60
     groups = [chains[i:i + CH] for i in range(0, len(chains), CH)]
@@ -1237,19 +1258,4 @@ def run(ctx):
             if not std_rejects(ch):
                 for a, r in direction_findings(ch):
                     dir_seen.setdefault((a, r), ch.name())
-    for (a, r), example in sorted(dir_seen.items()):
-        why = {"take": "keeps the last n elements instead of the first n (eval!(&[1,2,3,4], take(2), rev(), next()) = Some(4), std Some(2))",
-               "skip": "skips the last n elements instead of the first n (eval!(&[1,2,3,4], skip(1), rev(), next()) = Some(3), std Some(4))",
-               "zip": "pairs both sides from their back ends, std first trims the longer side (eval!(&[1,2,3], zip(&[10,20]), rev(), next()) = "
-                      "Some((3,20)), std Some((2,20)))"}[a]
-        ctx.violation("DIR", "%s|%s" % (a, r), "`%s` before `%s` is accepted, but the reversal is hoisted to the source, so `%s` %s; seen in chain `%s`" % (
-            a, r, a, why, example))
-        ctx.instance("DIR", "%s|%s" % (a, r), sample={"adapter": a, "reverser": r, "example": example})
-    ctx.extra["programs"] = len(chains)
-    ctx.extra["disagreements_checked"] = len(chains)
-    ctx.extra["samples"] = samples or [{"chain": "-"}]
-    nest2(ctx)
-    closure_scope(ctx)
-    from .. import macrolint
-    macrolint.hygiene_rule(ctx, ["iter_eval", "for_each", "iter_collect_const"], facts.REPO)
-    ctx.floor("TV", 400)
+    return chains, dir_seen, samples
